@@ -12,6 +12,7 @@
 From Coq Require Import List ZArith Bool.
 Import ListNotations.
 From Goat Require Import Model.Client Proofs.ClientBase Proofs.ClientInv Proofs.ClientLog Proofs.ClientProps Proofs.ClientRoute Proofs.ClientNI.
+From Goat Require Model.Server Proofs.ServerProofs Proofs.ServerInv Proofs.ServerLive Proofs.ServerRoute.
 Open Scope Z_scope.
 
 (* ids: the ids of calls are pairwise distinct as 64-bit values as long as fewer than 2^64 ids have been
@@ -118,8 +119,65 @@ Theorem C05_noninterference_partial : forall ls s, lrun init ls = Some s ->
 Proof. exact honest_l. Qed.
 Print Assumptions C05_noninterference_partial.
 
-(* server side: see below (supplied by the server package as lemmas of Proofs/Server*.v):
-   C05_server_route is stated in this file once those lemmas exist. *)
+(* ---------- server side (Model/Server.v, proofs in Proofs/ServerRoute.v) ---------- *)
+(* Every theorem below is over all label sequences of the server-connection model: any envelopes from the peer,
+   any handler behaviour, transport faults, Stop, any interleaving.
+
+   Stream handlers. For handler h (record k, started by envelope [h_req k]): [routed h id l] scans the history l -
+   h is the registered entry of its id from its invocation to its unregistration; the envelopes read meanwhile
+   that name a stream method, carry that id and are not resets (a reset cancels h instead) are the sub-sequence of
+   the inbox that belongs to h. They are, in order and once each: those the read loop settled for h ([settled]:
+   put into h's queue, or dropped because h's context was already done), then the one it is holding for h, then
+   at most one that it abandoned when it left serve (the connection ended). And the envelopes put into h's queue
+   ([fwds]) are, in order and once each, those h took ([takes]) followed by the one still queued. [regflag] =
+   the scan's idea of "registered" agrees with the registry. *)
+Theorem C05_server_route : forall ls s, Server.lrun Server.init ls = Some s ->
+  forall h k, nth_error (Server.hs s) h = Some k -> Server.h_unary k = false ->
+    (exists tail, ServerRoute.routed h (Server.fid (Server.h_req k)) (Server.log s)
+                  = ServerRoute.settled h (Server.log s) ++ ServerRoute.held s h ++ tail
+                  /\ (tail = [] \/ (ServerInv.rd_exited s = true /\ exists f, tail = [f])))
+    /\ ServerRoute.fwds h (Server.log s) = ServerRoute.takes h (Server.log s) ++ ServerRoute.queue k
+    /\ ServerRoute.regflag h (Server.fid (Server.h_req k)) (Server.log s) = Server.h_reg k.
+Proof. exact (ServerRoute.srv_route_exact Server.nworkers). Qed.
+Print Assumptions C05_server_route.
+
+(* ... while the read loop serves, nothing is lost: routed = settled ++ held *)
+Theorem C05_server_route_serving : forall ls s, Server.lrun Server.init ls = Some s -> ServerInv.rd_exited s = false ->
+  forall h k, nth_error (Server.hs s) h = Some k -> Server.h_unary k = false ->
+    ServerRoute.routed h (Server.fid (Server.h_req k)) (Server.log s)
+    = ServerRoute.settled h (Server.log s) ++ ServerRoute.held s h.
+Proof. exact (ServerRoute.srv_route_exact_serving Server.nworkers). Qed.
+Print Assumptions C05_server_route_serving.
+
+(* ... and an index that is no handler is routed nothing and takes nothing *)
+Theorem C05_server_route_nobody : forall ls s, Server.lrun Server.init ls = Some s ->
+  forall h id, (length (Server.hs s) <= h)%nat ->
+    ServerRoute.routed h id (Server.log s) = [] /\ ServerRoute.settled h (Server.log s) = []
+    /\ ServerRoute.takes h (Server.log s) = [].
+Proof. exact (ServerRoute.srv_route_nobody Server.nworkers). Qed.
+Print Assumptions C05_server_route_nobody.
+
+(* Unary requests: the envelopes read that name a registered unary method of this server (header present,
+   method parses, destination = the server's name) are, in order and once each, those handed to a worker (one
+   SvJob event each: exactly one worker, exactly once), then the one on offer, then at most one abandoned when the
+   read loop left serve. *)
+Theorem C05_server_unary_once : forall ls s, Server.lrun Server.init ls = Some s ->
+  exists tail, ServerRoute.ureads (Server.log s) = ServerRoute.jobs (Server.log s) ++ ServerRoute.offered s ++ tail
+               /\ (tail = [] \/ (ServerInv.rd_exited s = true /\ exists f, tail = [f])).
+Proof. exact (ServerRoute.srv_unary_once Server.nworkers). Qed.
+Print Assumptions C05_server_unary_once.
+
+(* non-vacuity of the server theorems: a stream that received two messages (one taken, one queued) and a unary
+   request handed to a worker *)
+Example C05_server_ex :
+  let mk := fun id k b => Server.mkFrame (mkEnv id (Some (MdOk 0)) None b None false) k 2 1 in
+  exists s, Server.lrun Server.init (ServerLive.labels_of
+              [Server.ADeliver (mk 1 (Server.MStream 3) None); Server.AHandlerStep 0 Server.HRecv;
+               Server.ADeliver (mk 1 (Server.MStream 3) (Some 11)); Server.ADeliver (mk 1 (Server.MStream 3) (Some 12));
+               Server.ADeliver (mk 7 (Server.MUnary 1) (Some 13))]) = Some s
+    /\ length (ServerRoute.routed 0 1 (Server.log s)) = 2%nat /\ length (ServerRoute.takes 0 (Server.log s)) = 1%nat
+    /\ length (ServerRoute.jobs (Server.log s)) = 1%nat /\ length (Server.hs s) = 2%nat.
+Proof. eexists. vm_compute. repeat split. Qed.
 
 (* ---------- the hypotheses are satisfiable ---------- *)
 Definition msg (id b : Z) : env := mkEnv id (Some (MdOk 0)) None (Some b) None false.
